@@ -368,6 +368,10 @@ func (p *sparser) primary() *SNode {
 	case token.STRING:
 		return &SNode{Op: "str", Text: t.lit, Pos: t.pos}
 	case token.IDENT:
+		if t.lit == "forall" || t.lit == "exists" || t.lit == "let" {
+			p.i--
+			return p.expr()
+		}
 		return &SNode{Op: "id", Text: t.lit, Pos: t.pos}
 	case token.LPAREN:
 		x := p.expr()
